@@ -79,6 +79,7 @@ type subScenario struct {
 	Targets   []string            `json:"targets"`
 	Ed        bool                `json:"ed"`
 	TimeoutMs int                 `json:"timeout_ms"`
+	IdleMs    int                 `json:"idle_ms,omitempty"` // silence (longer than the send timeout) between the phases and before the end
 	ACL       map[string][]string `json:"acl,omitempty"` // user -> allowed targets; absent: no ACL installed
 	ACLErr    []string            `json:"acl_err,omitempty"`
 	Prelude   []cacheOp           `json:"prelude,omitempty"`
@@ -623,8 +624,10 @@ func (e *subEnv) quiesce() {
 	}
 	for round := 0; round < 2; round++ {
 		v := atomic.AddInt64(&e.sent, 1)
-		for _, t := range targets {
-			e.writeSentinel(t, v)
+		// the order rotates: whichever target's sentinel a subscriber is handed last (possibly one its ACL
+		// denies, which is dropped at send time) is the last thing its sender did before the silence
+		for i := range targets {
+			e.writeSentinel(targets[(i+int(v))%len(targets)], v)
 		}
 		for _, r := range e.sortedRuns() {
 			if !r.started || r.d.Mode != "stream" {
@@ -954,6 +957,10 @@ func runSubScenario(w *trace.Writer, sc subScenario) bool {
 	}
 	e.quiesce()
 	for phi, ph := range sc.Phases {
+		if sc.IdleMs > 0 && phi > 0 {
+			// nothing is sent for longer than the send timeout: an idle subscriber is not a stalled one
+			time.Sleep(time.Duration(sc.IdleMs) * time.Millisecond)
+		}
 		var wg sync.WaitGroup
 		var stallNow []*subRun
 		for _, r := range e.sortedRuns() {
@@ -1107,6 +1114,10 @@ func runSubScenario(w *trace.Writer, sc subScenario) bool {
 		}
 		e.quiesce()
 	}
+	if sc.IdleMs > 0 {
+		time.Sleep(time.Duration(sc.IdleMs) * time.Millisecond)
+		e.quiesce()
+	}
 	// tear down
 	if os.Getenv("VERIF_DUMP") != "" {
 		for _, r := range e.sortedRuns() {
@@ -1193,7 +1204,12 @@ func genSubScenario(r *rand.Rand, sc int, profile string) subScenario {
 	nt := 1 + r.Intn(3)
 	s := subScenario{Sc: sc, Targets: all[:nt], Ed: r.Intn(2) == 0, TimeoutMs: 60000}
 	users := []string{"u1", "u2"}
-	if profile == "acl" {
+	if profile == "idle" {
+		// long silences: the send timeout covers sends only, never the time between them
+		s.TimeoutMs = 1500
+		s.IdleMs = 2000
+	}
+	if profile == "acl" || (profile == "idle" && r.Intn(2) == 0) {
 		s.ACL = map[string][]string{}
 		for _, u := range users {
 			s.ACL[u] = []string{}
@@ -1214,14 +1230,14 @@ func genSubScenario(r *rand.Rand, sc int, profile string) subScenario {
 	for i := 0; i < ns; i++ {
 		d := subDesc{Name: fmt.Sprintf("s%d", i+1), User: users[r.Intn(len(users))]}
 		switch x := r.Intn(10); {
-		case profile == "once" && x < 8, x < 2:
+		case profile == "once" && x < 8, profile == "idle" && x < 5, x < 2:
 			d.Mode = []string{"once", "poll"}[r.Intn(2)]
 		default:
 			d.Mode = "stream"
 			d.UpdatesOnly = r.Intn(5) == 0
 		}
 		d.Target = s.Targets[r.Intn(len(s.Targets))]
-		if r.Intn(3) == 0 {
+		if r.Intn(3) == 0 || (profile == "idle" && r.Intn(2) == 0) {
 			d.Target = "*"
 		}
 		if r.Intn(3) == 0 {
@@ -1249,6 +1265,9 @@ func genSubScenario(r *rand.Rand, sc int, profile string) subScenario {
 		s.Subs = append(s.Subs, d)
 	}
 	nph := 1 + r.Intn(3)
+	if profile == "idle" {
+		nph = 2
+	}
 	if profile == "stall" {
 		nph = 2 + r.Intn(2)
 		s.TimeoutMs = 250
@@ -1263,6 +1282,9 @@ func genSubScenario(r *rand.Rand, sc int, profile string) subScenario {
 			} else if started[d.Name] {
 				if d.Mode == "poll" {
 					ph.Polls[d.Name] = r.Intn(3)
+					if profile == "idle" {
+						ph.Polls[d.Name] = 1 + r.Intn(2)
+					}
 				}
 				if r.Intn(6) == 0 {
 					ph.End = append(ph.End, d.Name)
